@@ -16,6 +16,7 @@ import gstools as gs
 
 from ..core import R, generic_values
 from ..oracles import closed_forms as cf
+from ..oracles import geometry as og
 
 LEVEL = "exploration"
 warnings.simplefilter("ignore")
@@ -216,6 +217,33 @@ def case_effdim(case):
     r.close("variogram == var (1 - closed form) + nugget in the effective dimension", m.variogram(lags), 1.4 * (1 - ref) + 0.1, rtol=1e-8, atol=1e-9, **extra)
     fresh = getattr(gs, cls)(dim=d, var=1.4, len_scale=1.3, nugget=0.1, **opts)
     r.close("same values as the plain model of that dimension", m.correlation(lags), fresh.correlation(lags), rtol=1e-12, atol=1e-14, **extra)
+    rng = np.random.RandomState(2)
+    if kw.get("latlon"):
+        # a lat-lon model stays isotropic in space whatever is assigned to len_scale / integral_scale
+        for how in ("len_scale list", "integral_scale list"):
+            m2 = getattr(gs, cls)(var=1.4, len_scale=1.3, nugget=0.1, **kw, **opts)
+            try:
+                if how == "len_scale list":
+                    m2.len_scale = [1.3, 0.4, 2.0][: len(m2.anis) + 1]
+                else:
+                    m2.integral_scale = [1.1, 0.3, 2.0][: len(m2.anis) + 1]
+            except ValueError:
+                continue
+            r.close("lat-lon model: spatial anisotropy ratios stay 1 after a per-axis list was assigned", np.array(m2.anis)[:2], [1.0, 1.0], rtol=0, atol=0, how=how, **extra)
+            vec = rng.uniform(-1, 1, size=(3, 4))
+            full = np.vstack([vec, np.zeros((1, 4))]) if kw.get("temporal") else vec
+            r.close("lat-lon model: cov_spatial(chord vector) == covariance(|chord|)", m2.cov_spatial(full), m2.covariance(np.linalg.norm(vec, axis=0)), rtol=1e-12, atol=1e-14, how=how, **extra)
+    elif kw.get("temporal") and kw.get("spatial_dim", 0) >= 2:
+        # rotated anisotropic space-time model: spatial functions of a lag == isotropic function of the transformed lag
+        sd = kw["spatial_dim"]
+        ang = [0.6, -0.3, 0.8][: og.n_angles(sd)]
+        an = [0.5, 1.6][: sd - 1] + [2.5]
+        m3 = getattr(gs, cls)(var=1.4, len_scale=1.3, nugget=0.1, anis=an, angles=ang, **kw, **opts)
+        lag = rng.uniform(-2, 2, size=(sd + 1, 6))
+        iso_sp = og.isometrize(sd, ang, an[: sd - 1], lag[:sd])
+        rad = np.sqrt((iso_sp**2).sum(axis=0) + (lag[sd] / an[-1]) ** 2)
+        r.close("space-time model: cov_spatial(lag) == covariance(|rotated, stretched lag|)", m3.cov_spatial(lag), m3.covariance(rad), rtol=1e-11, atol=1e-13, **extra)
+        r.close("space-time model: vario_spatial(lag) == variogram(|rotated, stretched lag|)", m3.vario_spatial(lag), m3.variogram(rad), rtol=1e-11, atol=1e-13, **extra)
     return r.done(outcome=[cls, d, str(kw)])
 
 
